@@ -82,7 +82,7 @@ pub fn k4_bytes_bin() {
         None => return,
     };
     let mut s = RecSink::new(data.as_ptr());
-    let r = data[..].to_mysql_bin(&mut s, &c);
+    let r = noerr(data[..].to_mysql_bin(&mut s, &c));
     let k1: usize = vk::any();
     if stringlike(c.coltype) {
         vk_cover!(n > 250, "cover: byte string beyond the 1-byte length class");
@@ -137,12 +137,12 @@ pub fn k4_forwarders_str() {
     let c = col(ColumnType::MYSQL_TYPE_VAR_STRING, false);
     let text: bool = vk::any();
     let mut b = Buf::<8>::new();
-    let r = if text { st.to_mysql_text(&mut b) } else { st.to_mysql_bin(&mut b, &c) };
+    let r = noerr(if text { st.to_mysql_text(&mut b) } else { st.to_mysql_bin(&mut b, &c) });
     vk_cover!(text, "cover: str text");
     vk_assert!(r.is_ok() && b.n == 3 && b.b[0] == 2 && b.b[1] == raw[0] && b.b[2] == raw[1], "[C07.bin.bytes] str not encoded as lenenc_str(as_bytes())");
     let owned: String = unsafe { String::from_utf8_unchecked(vec![raw[0], raw[1]]) };
     let mut b2 = Buf::<8>::new();
-    let r2 = if text { owned.to_mysql_text(&mut b2) } else { owned.to_mysql_bin(&mut b2, &c) };
+    let r2 = noerr(if text { owned.to_mysql_text(&mut b2) } else { owned.to_mysql_bin(&mut b2, &c) });
     vk_assert!(r2.is_ok() && b2.n == 3 && b2.b[0] == 2 && b2.b[1] == raw[0] && b2.b[2] == raw[1], "[C07.bin.bytes] String not encoded as lenenc_str(as_bytes())");
 }
 
@@ -154,7 +154,7 @@ pub fn k4_bytes_text() {
     vk::assume(n <= (1usize << 40));
     let data = lazy_bytes(n);
     let mut s = RecSink::new(data.as_ptr());
-    let r = data[..].to_mysql_text(&mut s);
+    let r = noerr(data[..].to_mysql_text(&mut s));
     let k1: usize = vk::any();
     vk_cover!(n == 0, "cover: empty string");
     vk_cover!(n > 65535, "cover: string beyond 65535 bytes");
@@ -178,7 +178,7 @@ pub fn k4_option() {
     if some {
         let ci = col(ColumnType::MYSQL_TYPE_SHORT, false);
         let mut bi = Buf::<8>::new();
-        let r = v.to_mysql_bin(&mut bi, &ci);
+        let r = noerr(v.to_mysql_bin(&mut bi, &ci));
         vk_assert!(r.is_ok() && bi.n == 2 && i16::from_le_bytes([bi.b[0], bi.b[1]]) == x, "[C07.bin.option] Some(v) binary encoding is not v's");
     }
 }
@@ -191,7 +191,7 @@ pub fn k4_option_text() {
     let inner: &[u8] = &raw[..];
     let v: Option<&[u8]> = if some { Some(inner) } else { None };
     let mut t = Buf::<8>::new();
-    let r = v.to_mysql_text(&mut t);
+    let r = noerr(v.to_mysql_text(&mut t));
     vk_assert!(r.is_ok(), "[C06.text.null] Option text encoding failed");
     vk_cover!(!some, "cover: NULL in text protocol");
     if some {
@@ -214,7 +214,7 @@ pub fn k4_floats_bin() {
         None => return,
     };
     let mut b = Buf::<16>::new();
-    let r = f.to_mysql_bin(&mut b, &c);
+    let r = noerr(f.to_mysql_bin(&mut b, &c));
     vk_cover!(c.coltype == ColumnType::MYSQL_TYPE_DOUBLE && f.is_nan(), "cover: NaN into DOUBLE");
     vk_cover!(c.coltype == ColumnType::MYSQL_TYPE_TINY, "cover: float into an integer column");
     match c.coltype {
@@ -233,7 +233,7 @@ pub fn k4_floats_bin() {
         }
     }
     let mut b2 = Buf::<16>::new();
-    let r2 = d.to_mysql_bin(&mut b2, &c);
+    let r2 = noerr(d.to_mysql_bin(&mut b2, &c));
     match c.coltype {
         ColumnType::MYSQL_TYPE_DOUBLE => {
             vk_assert!(r2.is_ok() && b2.n == 8, "[C07.bin.float] f64 into DOUBLE must be 8 bytes");
@@ -265,7 +265,7 @@ pub fn k4_date_bin() {
         None => return,
     };
     let mut b = Buf::<16>::new();
-    let r = d.to_mysql_bin(&mut b, &c);
+    let r = noerr(d.to_mysql_bin(&mut b, &c));
     if c.coltype == ColumnType::MYSQL_TYPE_DATE {
         vk_cover!(y == 9999 && m == 12 && dd == 31, "cover: last day of year 9999");
         vk_assert!(r.is_ok() && b.n == 5 && b.b[0] == 4, "[C07.bin.date] DATE must be the 4-byte form");
@@ -297,7 +297,7 @@ pub fn k4_datetime_bin() {
         None => return,
     };
     let mut b = Buf::<16>::new();
-    let r = d.to_mysql_bin(&mut b, &c);
+    let r = noerr(d.to_mysql_bin(&mut b, &c));
     if c.coltype == ColumnType::MYSQL_TYPE_DATETIME || c.coltype == ColumnType::MYSQL_TYPE_TIMESTAMP {
         vk_cover!(us != 0, "cover: datetime with microseconds");
         vk_cover!(us == 0, "cover: datetime without microseconds");
@@ -330,7 +330,7 @@ pub fn k4_duration_bin() {
         None => return,
     };
     let mut b = Buf::<16>::new();
-    let r = d.to_mysql_bin(&mut b, &c);
+    let r = noerr(d.to_mysql_bin(&mut b, &c));
     if c.coltype == ColumnType::MYSQL_TYPE_TIME {
         if r.is_ok() {
             if secs == 0 && us == 0 {
@@ -380,21 +380,21 @@ pub fn k4_generic_bin() {
     match which {
         0 => {
             let v = V::Bytes(vec![raw[0], raw[1]]);
-            let r = v.to_mysql_bin(&mut b, &c);
-            let r2 = raw[..].to_mysql_bin(&mut b2, &c);
+            let r = noerr(v.to_mysql_bin(&mut b, &c));
+            let r2 = noerr(raw[..].to_mysql_bin(&mut b2, &c));
             vk_assert!(r.is_ok() == r2.is_ok() && b.n == b2.n && same16(&b.b, &b2.b), "[C07.bin.generic] Bytes not encoded like a byte string");
             vk_assert!(!v.is_null(), "[C07.bin.generic] non-NULL generic value claims to be NULL");
         }
         1 => {
             let f = f32::from_bits(bits32);
-            let r = V::Float(f).to_mysql_bin(&mut b, &c);
-            let r2 = f.to_mysql_bin(&mut b2, &c);
+            let r = noerr(V::Float(f).to_mysql_bin(&mut b, &c));
+            let r2 = noerr(f.to_mysql_bin(&mut b2, &c));
             vk_assert!(r.is_ok() == r2.is_ok() && b.n == b2.n && same16(&b.b, &b2.b), "[C07.bin.generic] Float not encoded like f32");
         }
         2 => {
             let f = f64::from_bits(bits64);
-            let r = V::Double(f).to_mysql_bin(&mut b, &c);
-            let r2 = f.to_mysql_bin(&mut b2, &c);
+            let r = noerr(V::Double(f).to_mysql_bin(&mut b, &c));
+            let r2 = noerr(f.to_mysql_bin(&mut b2, &c));
             vk_assert!(r.is_ok() == r2.is_ok() && b.n == b2.n && same16(&b.b, &b2.b), "[C07.bin.generic] Double not encoded like f64");
         }
         _ => {
@@ -413,7 +413,7 @@ pub fn k4_generic_date_bin() {
     vk::assume(y <= 9999 && us < 1_000_000);
     let c = col(ColumnType::MYSQL_TYPE_DATETIME, false);
     let mut b = Buf::<16>::new();
-    let r = V::Date(y, mo, d, h, mi, s, us).to_mysql_bin(&mut b, &c);
+    let r = noerr(V::Date(y, mo, d, h, mi, s, us).to_mysql_bin(&mut b, &c));
     if r.is_ok() {
         vk_cover!(us != 0, "cover: generic datetime with micros");
         vk_assert!(u16::from_le_bytes([b.b[1], b.b[2]]) == y && b.b[3] == mo && b.b[4] == d, "[C07.bin.generic] generic date part differs");
